@@ -114,66 +114,54 @@ held; the function's role is played by the thread the role table says) and `f` p
 theorem table_sound (tr : Trace) (thr : Nat → Nat) (D : Nat → Discipline) (role : Role)
     (d : LDisc) (f : Fact) (i : Nat) (e : Event) (inst : Instance tr thr role f i e)
     (hD : D e.obj = d.interp thr) (hf : factComplies role d f = true) : Complies tr D i e := by
-  unfold factComplies at hf
-  by_cases hfresh : f.fresh = true
+  have hk : ∀ k, f.kind = k → e.op = opOfKind k := fun k h => h ▸ inst.kind
+  simp only [factComplies, Bool.or_eq_true] at hf
+  rcases hf with (hfresh | hbasic) | hrole
   · exact Or.inl (inst.isFresh hfresh)
-  · simp only [hfresh, Bool.false_eq_true, if_false] at hf
-    have hk : ∀ k, f.kind = k → e.op = opOfKind k := fun k h => h ▸ inst.kind
+  · -- decided without the role
+    refine Or.inr (Or.inr ?_)
+    rw [hD]
+    cases d with
+    | lock m =>
+      simp only [factBasic, LDisc.interp, compliesD, Bool.or_eq_true, Bool.and_eq_true, beq_iff_eq] at hbasic ⊢
+      rcases hbasic with h | ⟨h1, h2⟩
+      · exact Or.inl (inst.held m .ex h)
+      · exact Or.inr ⟨hk _ h1, inst.held m .sh h2⟩
+    | confined r => simp [factBasic] at hbasic
+    | atomic =>
+      simp only [factBasic, LDisc.interp, compliesD, beq_iff_eq] at hbasic ⊢
+      exact hk _ hbasic
+    | initOnly =>
+      simp only [factBasic, LDisc.interp, compliesD, beq_iff_eq] at hbasic ⊢
+      exact hk _ hbasic
+    | ownedLock r m =>
+      simp only [factBasic, LDisc.interp, compliesD, Bool.or_eq_true, Bool.and_eq_true, beq_iff_eq] at hbasic ⊢
+      obtain ⟨h1, h2⟩ := hbasic
+      rcases h2 with h2 | h2
+      · exact Or.inr ⟨hk _ h1, Or.inr (Or.inl (inst.held m .sh h2))⟩
+      · exact Or.inr ⟨hk _ h1, Or.inr (Or.inr (inst.held m .ex h2))⟩
+  · -- decided by the role of the enclosing function
     cases role with
     | init => exact Or.inl (inst.isInit rfl)
     | teardown => exact Or.inr (Or.inl (inst.isTeardown rfl))
-    | any =>
-      refine Or.inr (Or.inr ?_)
-      rw [hD]
-      cases d with
-      | lock m =>
-        simp only [LDisc.interp, compliesD, Bool.or_eq_true, Bool.and_eq_true, beq_iff_eq] at hf ⊢
-        rcases hf with h | ⟨h1, h2⟩
-        · exact Or.inl (inst.held m .ex h)
-        · exact Or.inr ⟨hk _ h1, inst.held m .sh h2⟩
-      | confined r => simp at hf
-      | atomic =>
-        simp only [LDisc.interp, compliesD, beq_iff_eq] at hf ⊢
-        exact hk _ hf
-      | initOnly =>
-        simp only [LDisc.interp, compliesD, beq_iff_eq] at hf ⊢
-        exact hk _ hf
-      | ownedLock r m =>
-        simp only [LDisc.interp, compliesD, Bool.or_eq_true, Bool.and_eq_true, beq_iff_eq] at hf ⊢
-        rcases hf with ⟨h, _⟩ | ⟨h1, h2⟩
-        · cases h
-        · rcases h2 with (h2 | h2) | h2
-          · cases h2
-          · exact Or.inr ⟨hk _ h1, Or.inr (Or.inl (inst.held m .sh h2))⟩
-          · exact Or.inr ⟨hk _ h1, Or.inr (Or.inr (inst.held m .ex h2))⟩
+    | any => simp [factByRole] at hrole
     | named q =>
       have htid := inst.isRole q rfl
       refine Or.inr (Or.inr ?_)
       rw [hD]
       cases d with
-      | lock m =>
-        simp only [LDisc.interp, compliesD, Bool.or_eq_true, Bool.and_eq_true, beq_iff_eq] at hf ⊢
-        rcases hf with h | ⟨h1, h2⟩
-        · exact Or.inl (inst.held m .ex h)
-        · exact Or.inr ⟨hk _ h1, inst.held m .sh h2⟩
+      | lock m => simp [factByRole] at hrole
+      | atomic => simp [factByRole] at hrole
+      | initOnly => simp [factByRole] at hrole
       | confined r =>
-        simp only [LDisc.interp, compliesD, beq_iff_eq, Role.named.injEq] at hf ⊢
-        rw [htid, hf]
-      | atomic =>
-        simp only [LDisc.interp, compliesD, beq_iff_eq] at hf ⊢
-        exact hk _ hf
-      | initOnly =>
-        simp only [LDisc.interp, compliesD, beq_iff_eq] at hf ⊢
-        exact hk _ hf
+        simp only [factByRole, LDisc.interp, compliesD, beq_iff_eq] at hrole ⊢
+        rw [htid, hrole]
       | ownedLock r m =>
-        simp only [LDisc.interp, compliesD, Bool.or_eq_true, Bool.and_eq_true, beq_iff_eq,
-          Role.named.injEq] at hf ⊢
-        rcases hf with ⟨h, hx⟩ | ⟨h1, h2⟩
+        simp only [factByRole, LDisc.interp, compliesD, Bool.or_eq_true, Bool.and_eq_true, beq_iff_eq] at hrole ⊢
+        obtain ⟨h, h2⟩ := hrole
+        rcases h2 with hx | hr
         · exact Or.inl ⟨by rw [htid, h], inst.held m .ex hx⟩
-        · rcases h2 with (h2 | h2) | h2
-          · exact Or.inr ⟨hk _ h1, Or.inl (by rw [htid, h2])⟩
-          · exact Or.inr ⟨hk _ h1, Or.inr (Or.inl (inst.held m .sh h2))⟩
-          · exact Or.inr ⟨hk _ h1, Or.inr (Or.inr (inst.held m .ex h2))⟩
+        · exact Or.inr ⟨hk _ hr, Or.inl (by rw [htid, h])⟩
 
 /-- **From facts to race freedom.** If every access of a well-formed trace is an instance of some
 lexical fact that passes the table (`factOK`), the trace has no data race. The hypotheses `hinst`
@@ -263,7 +251,7 @@ open Refinery.Locks.Table Refinery.Gen.Access
 
 /-- The full-strength static statement: every lexical access fact of the anchored structs complies
 with its field's discipline. -/
-def FullStatement : Prop := allFactsComply disciplines roles accessFacts = true
+def FullStatement : Prop := allFactsComply disciplines roles [] accessFacts = true
 
 /-- On the current tree the full statement is false: the accesses in `knownViolations` break
 their field's discipline (each is a data race reproduced by the race-detector harness). -/
@@ -276,9 +264,18 @@ tracked structs, in every function of the analysed packages, complies with the d
 field (holds the right mutex in the right mode / runs in the owning role / is atomic / is a read
 of an init-only field).  A removed `Lock()`, a new unsynchronised access or a plain access to an
 atomic field makes this false. -/
-theorem facts_comply :
-    allFactsComply disciplines roles (withoutKnown knownViolations accessFacts) = true := by
+theorem facts_comply : allFactsComply disciplines roles knownViolations accessFacts = true := by
   decide +kernel
+
+/-- What `facts_comply` says, fact by fact (the checker caches the discipline of the previous
+fact's location; this does not change its meaning). -/
+theorem facts_comply_meaning (disc : List (Nat × LDisc)) (rl : List (Nat × Role))
+    (known : List (Nat × Nat × AKind)) (fs : List Fact) :
+    allFactsComply disc rl known fs = true ↔
+      ∀ f, f ∈ fs → factOK disc rl f = true ∨ isKnown known f = true := by
+  unfold allFactsComply
+  rw [checkFrom_iff disc rl known fs none (by intro l d h; cases h)]
+  simp only [Bool.or_eq_true]
 
 /-- Every declared field of the tracked structs has a discipline (a new field must be classified). -/
 theorem fields_covered :
